@@ -28,7 +28,7 @@ ASSUMPTIONS = [
 ]
 TRUSTED = ["CPython str()/repr() of numbers"]
 DT = {"str": str, "int": int, "float": float, "ostr": Optional[str], "oint": Optional[int], "ofloat": Optional[float]}
-STRS = ["x", "x b=y", "y b=z", "z", "", " ", "=", 'q"', "\\", '\\"', "None", "3", "3.0", "a=1 b=2", '"x"', "x\\", "é ü", "a" * 70, "b" * 130]
+STRS = ["rpoly hi", "rpoly  hi", "rpoly\thi", "rpoly hi ", "a\nb", "a b", "x", "x b=y", "y b=z", "z", "", " ", "=", 'q"', "\\", '\\"', "None", "3", "3.0", "a=1 b=2", '"x"', "x\\", "é ü", "a" * 70, "b" * 130]
 
 
 OMIT = "__omit__"
@@ -70,7 +70,25 @@ def impl_name(case):
         except Exception as ex:  # noqa
             out[-1]["forms"] = {"raised": f"{type(ex).__name__}: {str(ex)[:100]}"}
     eq = [[(a is not None and b is not None and a == b) for b in insts] for a in insts]
-    return {"vals": out, "eq": eq}
+    # all the modules of this case in one design: as many definitions as modules, under as many names
+    export = None
+    try:
+        mods = []
+        for pi in insts:
+            if pi is not None:
+                mm = G(pi)
+                if not any(mm is x for x in mods):
+                    mods.append(mm)
+        top = h.Module(name="NamesTop")
+        for k, mm in enumerate(mods):
+            top.add(mm(), name=f"i{k}")
+        pkg = h.to_proto(top)
+        defs = [pm.name for pm in pkg.modules if not pm.name.endswith("NamesTop")]
+        ptop = next(pm for pm in pkg.modules if pm.name.endswith("NamesTop"))
+        export = {"modules": len(mods), "defs": len(defs), "distinct_defs": len(set(defs)), "refs": len({pi_.module.local for pi_ in ptop.instances})}
+    except Exception as ex:  # noqa
+        export = {"raised": f"{type(ex).__name__}: {str(ex)[:120]}"}
+    return {"vals": out, "eq": eq, "export": export}
 
 
 def enc_field(v):
@@ -83,6 +101,12 @@ def line_name(case):
 
 def judge_names(case, im, mo):
     vals = im["vals"]
+    ex = im.get("export")
+    if ex and "raised" in ex:
+        yield ("pred", f"the modules generated from these parameter values cannot be exported together: {ex['raised']}", "names")
+    elif ex and not (ex["modules"] == ex["defs"] == ex["distinct_defs"] == ex["refs"]):
+        yield ("pred", f"{ex['modules']} different generated modules in one design came out as {ex['defs']} definitions under {ex['distinct_defs']} names, "
+               f"referred to by {ex['refs']} names", "names")
     for i, a in enumerate(vals):
         if "reject" in a:
             continue
@@ -424,6 +448,36 @@ def uncached_check(ctx):
                 break
 
 
+def collections_check(ctx):
+    """List-, tuple- and set-valued fields: equal values, however built, give the identical module — or the call is refused
+    (an unhashable value cannot key the cache); never two modules under one name."""
+    rep = ctx.rep
+    from typing import List, Tuple, FrozenSet
+
+    shapes = [("lst", List[int], [[1, 2, 3], [1, 2, 3], [3, 2, 1]]), ("tup", Tuple[int, ...], [(1, 2), (1, 2), (2, 1)]),
+              ("fs", FrozenSet[str], [frozenset(["a", "b", "c"]), frozenset(["c", "b", "a"]), frozenset(["a"])])]
+    for nm, dt, values in shapes:
+        P = h.paramclass(type("PC", (), {"v": h.Param(dtype=dt, desc="v")}))
+
+        def body(p: P) -> h.Module:
+            return h.Module()
+
+        body.__name__ = "GC_" + nm
+        G = h.generator(body)
+        res = []
+        for v in values:
+            try:
+                res.append(G(v=v))
+            except Exception as ex:  # noqa
+                res.append(None)
+        rep.count("collections", nm)
+        a, b, c = res
+        if a is not None and b is not None and a is not b:
+            rep.fail("pred", {"stream": "collections", "shape": nm}, f"equal {nm}-valued parameters returned two modules, named {a.name!r} and {b.name!r}", "names")
+        if a is not None and c is not None and (a is c or a.name == c.name):
+            rep.fail("pred", {"stream": "collections", "shape": nm}, f"different {nm}-valued parameters share a module or a name: {a.name!r} / {c.name!r}", "names")
+
+
 def collision_search(ctx):
     """Failing-input search for the readable name: every pair of strings over a small adversarial alphabet
     (up to length 4) as the two str fields of one param class; group by name; a name shared by two different
@@ -495,6 +549,7 @@ def run(ctx):
     shapes_check(ctx)
     scalar_check(ctx)
     uncached_check(ctx)
+    collections_check(ctx)
 
 
 def replay(ctx, rp):
